@@ -55,9 +55,8 @@ M = [
       old="ptr::copy_nonoverlapping(src.as_ptr(), dst.as_ptr(), src.len());\n            slice::from_raw_parts_mut(dst.as_ptr(), src.len())\n        }\n    }", new="ptr::copy_nonoverlapping(src.as_ptr(), dst.as_ptr(), src.len().saturating_sub(1));\n            slice::from_raw_parts_mut(dst.as_ptr(), src.len())\n        }\n    }"),
  dict(id="M34", file=L, props=["C20"], note="the fast path stores the finger unconditionally again (race on the static)",
       old="            if aligned_ptr.as_ptr() != ptr {\n                footer.ptr.set(aligned_ptr);\n            }", new="            footer.ptr.set(aligned_ptr);"),
- dict(id="M35", file=L, props=["C11"], note="same-chunk rewind of a failed initialiser restores the wrong pointer",
-      old="                        current_ptr.set(rewind_ptr);\n                    } else {\n                        // We allocated a new chunk for this result.\n                        //\n                        // We know the result is the only allocation in this\n                        // chunk: Any additional allocations since the start of\n                        // this method could only have happened when running\n                        // the initializer function, which is called *after*\n                        // reserving space for this result. Therefore, since we\n                        // already determined via the check above that this\n                        // result was the last allocation, there must not have\n                        // been any other allocations, and this result is the\n                        // only allocation in this chunk.\n                        //\n                        // Because this is the only allocation in this chunk,\n                        // we can reset the chunk's bump finger to the end of\n                        // the chunk's usable region (we bump downwards), just\n                        // like `reset` does.\n                        current_ptr.set(current_footer_p.cast());\n                    }\n                }\n                //SAFETY:\n                // As we received `E` semantically by value from `f`, we can\n                // just copy that value here as long as we avoid a double-drop\n                // (which can't happen as any specific references to the `E`'s\n                // data in `self` are destroyed when this function returns).\n                //\n                // The order between this and the deallocation doesn't matter\n                // because `Self: !Sync`.\n                Err(ptr::read(e as *const _))",
-      new="                        let _ = rewind_ptr;\n                    } else {\n                        current_ptr.set(current_footer_p.cast());\n                    }\n                }\n                Err(ptr::read(e as *const _))"),
+ dict(id="M35", file=L, props=["C11"], note="same-chunk rewind of a failed initialiser never restores the finger (alloc_try_with)", nth=0,
+      old="                        if current_ptr.get() != rewind_ptr {\n                            current_ptr.set(rewind_ptr);\n                        }\n", new="                        let _ = rewind_ptr;\n"),
 ]
 
 
